@@ -111,3 +111,19 @@ Proof.
     rewrite sqrt_Rsqr_abs. unfold Rdiv. rewrite Rabs_mult, Rabs_inv. f_equal.
     now apply Rabs_right, Rle_ge.
 Qed.
+
+(* the three statements together *)
+Lemma errR_dd_propagation o v1 e1 v2 e2 :
+  (o = Div -> v2 <> 0) ->
+  derivable_pt_lim (fun x => valR o x v2) v1 (d1 o v1 v2) /\
+  derivable_pt_lim (fun y => valR o v1 y) v2 (d2 o v1 v2) /\
+  errR_dd o v1 e1 v2 e2 = sqrt (Rsqr (d1 o v1 v2 * e1) + Rsqr (d2 o v1 v2 * e2)).
+Proof.
+  intros H. repeat split;
+    [now apply valR_partial_left | now apply valR_partial_right | now apply errR_dd_first_order].
+Qed.
+
+Lemma errR_const_both o e1 c :
+  errR_dc o e1 c = match o with Add | Sub => e1 | Mul => e1 * Rabs c | Div => e1 / Rabs c end
+  /\ forall v1, 0 <= e1 -> (o = Div -> c <> 0) -> errR_dd o v1 e1 c 0 = errR_dc o e1 c.
+Proof. split; [apply errR_const | intros v1; apply errR_dd_const]. Qed.
